@@ -1,5 +1,6 @@
 import Acra.Model.NPD
 import Acra.Lemmas.Bits
+import Acra.Lemmas.NPDRS232
 namespace Acra.Props.C13
 open Acra.Py Acra.Model.NPD Acra.Gen.NPD Acra.Lemmas.Bits
 
@@ -41,6 +42,50 @@ example : (match (Seg.pack (Seg.pack { Seg.fresh .rs232 with sync_bytes := [0, 0
       (Seg.pack { Seg.fresh .rs232 with sync_bytes := [0, 0, 0, 0, 0, 0, 0, 0] }).2 with
     | .ok second, .ok first => first != second
     | _, _ => false) = true := by decide
+
+/-- exactly when: `RS232Segment.pack` called twice leaves the object and returns the result of calling it once
+    ⇔ the segment has at most seven sync bytes (for any list shorter than 2¹⁶; in general the condition is on
+    the count mod 2¹⁶ — with 65 536 sync bytes both calls raise `struct.error` from the same state) -/
+theorem RS232Segment_pack_idempotent_iff (g : Seg) (hk : g.kind = .rs232) (hn : g.sync_bytes.length < 65536) :
+    Seg.pack (Seg.pack g).1 = Seg.pack g ↔ g.sync_bytes.length ≤ 7 := by
+  have hp : ∀ s : Seg, s.kind = .rs232 → Seg.pack s = s.packRS232 := by
+    intro s hs; simp only [Seg.pack, hs]
+  have hk1 : (g.packRS232).1.kind = .rs232 := (Lemmas.NPD.packRS232_fields g).2.2.trans hk
+  rw [hp g hk, hp _ hk1, Lemmas.NPD.packRS232_idem_iff]
+  omega
+
+/-- the same without the bound on the list: the count mod 2¹⁶ decides -/
+theorem RS232Segment_pack_idempotent_iff_mod (g : Seg) (hk : g.kind = .rs232) :
+    Seg.pack (Seg.pack g).1 = Seg.pack g ↔ g.sync_bytes.length % 65536 ≤ 7 := by
+  have hp : ∀ s : Seg, s.kind = .rs232 → Seg.pack s = s.packRS232 := by
+    intro s hs; simp only [Seg.pack, hs]
+  have hk1 : (g.packRS232).1.kind = .rs232 := (Lemmas.NPD.packRS232_fields g).2.2.trans hk
+  rw [hp g hk, hp _ hk1, Lemmas.NPD.packRS232_idem_iff]
+
+/-- a segment that `pack` accepts has fewer than 2¹⁶ sync bytes, so for it the iff needs no side condition -/
+theorem RS232Segment_pack_idempotent_iff_of_ok (g : Seg) (hk : g.kind = .rs232) (b : Bytes) (hb : (Seg.pack g).2 = .ok b) :
+    Seg.pack (Seg.pack g).1 = Seg.pack g ↔ g.sync_bytes.length ≤ 7 := by
+  apply RS232Segment_pack_idempotent_iff g hk
+  have hp : Seg.pack g = g.packRS232 := by simp only [Seg.pack, hk]
+  rw [hp] at hb
+  simp only [Seg.packRS232] at hb
+  cases h1 : structPack RS232Segment_pack_fmt0 [(g.block_status &&& 0xFFF8) + g.sync_bytes.length] with
+  | error e => rw [h1] at hb; cases hb
+  | ok hh =>
+    have := (structPack_ok_iff RS232Segment_pack_fmt0 _).1 ⟨hh, h1⟩
+    simp [Fits, RS232Segment_pack_fmt0, Code.bound] at this
+    omega
+
+/-- the eight-sync-byte counterexample, as an instance of the iff's right-to-left failure: the results differ -/
+example : Seg.pack (Seg.pack { Seg.fresh .rs232 with sync_bytes := [0, 0, 0, 0, 0, 0, 0, 0] }).1 ≠
+    Seg.pack { Seg.fresh .rs232 with sync_bytes := [0, 0, 0, 0, 0, 0, 0, 0] } := by
+  rw [Ne, RS232Segment_pack_idempotent_iff _ rfl (by decide)]
+  decide
+
+/-- and seven are fine -/
+example : Seg.pack (Seg.pack { Seg.fresh .rs232 with sync_bytes := [1, 2, 3, 4, 5, 6, 7] }).1 =
+    Seg.pack { Seg.fresh .rs232 with sync_bytes := [1, 2, 3, 4, 5, 6, 7] } :=
+  (RS232Segment_pack_idempotent_iff _ rfl (by decide)).2 (by decide)
 
 theorem packSegs_idem (gs : List Seg) (h : ∀ g ∈ gs, g.kind = .rs232 → g.sync_bytes.length < 8) :
     packSegs (packSegs gs).1 = packSegs gs := by
